@@ -87,7 +87,8 @@ pub fn app<S: Src, const N: usize>(s: &mut S) {
     if let Ok(p) = App::parse(d) {
         assert!(p.ssrc() == be32(d, 4));
         assert!(p.subtype() == d[0] & 0x1f);
-        assert!(p.name() == [d[8], d[9], d[10], d[11]]);
+        let nm = p.name();
+        assert!(nm[0] == d[8] && nm[1] == d[9] && nm[2] == d[10] && nm[3] == d[11]);
         let pad = if d[0] & 0x20 != 0 { d[len - 1] as usize } else { 0 };
         let payload = p.data();
         assert!(payload.len() == len - 12 - pad);
